@@ -122,6 +122,18 @@ class _Found(Exception):
     pass
 
 
+def pmap(func, jobs, nproc):
+    """map over forked worker processes.  Unlike multiprocessing.Pool.map, a
+    worker that dies (e.g. killed for lack of memory) raises
+    BrokenProcessPool here instead of leaving the parent waiting for ever;
+    the callers turn that into a harness error (exit 2)."""
+    import concurrent.futures as cf
+    ctx = multiprocessing.get_context('fork')
+    nproc = max(1, min(nproc, os.cpu_count() or 1, len(jobs) or 1))
+    with cf.ProcessPoolExecutor(max_workers=nproc, mp_context=ctx) as ex:
+        return list(ex.map(func, jobs, chunksize=1))
+
+
 def _derive_seed(seed, shard, rnd):
     h = hashlib.sha256(('%d/%d/%d' % (seed, shard, rnd)).encode()).digest()
     return int.from_bytes(h[:6], 'big')
@@ -375,9 +387,11 @@ def main(argv=None):
         if shards == 1:
             results = [run_shard(jobs[0])]
         else:
-            ctx = multiprocessing.get_context('fork')
-            with ctx.Pool(min(shards, os.cpu_count() or 1)) as pool:
-                results = pool.map(run_shard, jobs, chunksize=1)
+            try:
+                results = pmap(run_shard, jobs, shards)
+            except Exception:
+                traceback.print_exc()
+                return 2
         for st, fnd in results:
             total.merge(st)
             for b, v in fnd.items():
